@@ -10,6 +10,6 @@ PoolSA == PoolQuickSA \cup {Msg(Rep(<<55>>, 83), "l1"), Msg(Rep(<<55, 56, 57>>, 
                             Msg(Rep(<<147, 95>>, 21), "l1"), Msg(<<65>>, "l1"), Msg(Rep(<<0, 255>>, 9), "l1")}
 VersionsQuickSA == {99, 1, 2, -1}
 VersionsSA == {99, 1, 2, 3, -1}
-CountsQuickSA == {-1, 1, 2, 3, 17}
+CountsQuickSA == {-1, 1, 2, 3, 16, 17}
 CountsSA == {-1, 1, 2, 3, 4, 16, 0, 17}
 =============================================================================
